@@ -210,6 +210,8 @@ impl WalManager {
 
         self.total_record_count.fetch_add(1, Ordering::Relaxed);
         self.records_since_sync.fetch_add(1, Ordering::Relaxed);
+        #[cfg(grafeo_verif)]
+        super::verif::emit("append", log_file.sequence, log_file.size);
 
         // Check if we need to rotate
         let needs_rotation = log_file.size >= self.config.max_log_size;
@@ -221,6 +223,8 @@ impl WalManager {
                 if matches!(record, WalRecord::TxCommit { .. }) {
                     log_file.writer.flush()?;
                     log_file.writer.get_ref().sync_all()?;
+                    #[cfg(grafeo_verif)]
+                    super::verif::emit("fsync", log_file.sequence, log_file.size);
                     self.records_since_sync.store(0, Ordering::Relaxed);
                     *self.last_sync.lock() = Instant::now();
                 }
@@ -235,6 +239,8 @@ impl WalManager {
                 if records >= *max_records || elapsed >= Duration::from_millis(*max_delay_ms) {
                     log_file.writer.flush()?;
                     log_file.writer.get_ref().sync_all()?;
+                    #[cfg(grafeo_verif)]
+                    super::verif::emit("fsync", log_file.sequence, log_file.size);
                     self.records_since_sync.store(0, Ordering::Relaxed);
                     *self.last_sync.lock() = Instant::now();
                 }
@@ -243,10 +249,14 @@ impl WalManager {
                 // Adaptive mode: just flush buffer, background thread handles sync
                 // The AdaptiveFlusher calls sync() periodically with self-tuning timing
                 log_file.writer.flush()?;
+                #[cfg(grafeo_verif)]
+                super::verif::emit("flush", log_file.sequence, log_file.size);
             }
             DurabilityMode::NoSync => {
                 // Just flush buffer, no sync
                 log_file.writer.flush()?;
+                #[cfg(grafeo_verif)]
+                super::verif::emit("flush", log_file.sequence, log_file.size);
             }
         }
 
@@ -320,9 +330,13 @@ impl WalManager {
         file.write_all(&data)?;
         file.sync_all()?;
         drop(file);
+        #[cfg(grafeo_verif)]
+        super::verif::emit("meta_tmp", metadata.log_sequence, 0);
 
         // Atomic rename
         fs::rename(&temp_path, &metadata_path)?;
+        #[cfg(grafeo_verif)]
+        super::verif::emit("meta_rename", metadata.log_sequence, 0);
 
         Ok(())
     }
@@ -378,9 +392,13 @@ impl WalManager {
             // recovery reads the files in order and stops at the first gap.
             old_log.writer.flush()?;
             old_log.writer.get_ref().sync_all()?;
+            #[cfg(grafeo_verif)]
+            super::verif::emit("fsync", old_log.sequence, old_log.size);
             drop(old_log);
         }
         *guard = Some(new_log);
+        #[cfg(grafeo_verif)]
+        super::verif::emit("rotate", new_sequence, 0);
 
         Ok(())
     }
@@ -394,6 +412,8 @@ impl WalManager {
         let mut guard = self.active_log.lock();
         if let Some(log_file) = guard.as_mut() {
             log_file.writer.flush()?;
+            #[cfg(grafeo_verif)]
+            super::verif::emit("flush", log_file.sequence, log_file.size);
         }
         Ok(())
     }
@@ -408,6 +428,8 @@ impl WalManager {
         if let Some(log_file) = guard.as_mut() {
             log_file.writer.flush()?;
             log_file.writer.get_ref().sync_all()?;
+            #[cfg(grafeo_verif)]
+            super::verif::emit("fsync", log_file.sequence, log_file.size);
         }
         self.records_since_sync.store(0, Ordering::Relaxed);
         *self.last_sync.lock() = Instant::now();
@@ -545,6 +567,8 @@ impl WalManager {
                     // Only delete if we have a checkpoint after this log
                     if checkpoint.as_u64() > seq {
                         let _ = fs::remove_file(&file);
+                        #[cfg(grafeo_verif)]
+                        super::verif::emit("remove", seq, 0);
                     }
                 }
             }
